@@ -191,6 +191,10 @@ def one_case(expr, n, m, symbolic, rng):
     for f in e.pc:
         s.add(ground(f))
     if s.check() != z3.sat:
+        # a shape / safety condition the model demanded is assumed once it has been emitted: on operands numpy rejects, that very
+        # condition is false on the data and makes the collected facts contradictory -- which is the model saying "rejected"
+        if want_exc is not None and any(z3.is_false(ground(ob.goal)) for ob in e.obligs if ob.kind in ("safety", "shape")):
+            return
         bad += 1
         print("MISMATCH", expr, "assumed facts are not satisfiable on the concrete data (or timeout)")
         return
